@@ -407,7 +407,9 @@ fn probe_groups() -> Vec<(&'static str, &'static str, Case22)> {
 }
 
 pub fn run(ctx: &mut Ctx) {
-    ctx.rule = "Cases are groups (base program, 2-3 variants, input histories): the base is drawn by the C21 generator, \
+    ctx.rule = "Cases are groups (base program, variants, input histories). `operator-cell-twins`: the minimal program of \
+every (operator, persistence) cell with its push-side twin (the operator behind tee()) and one randomly rewritten twin, on \
+dense histories. `variants-agree`: the base is drawn by the C21 random generator with 2-3 variants; \
 each variant applies 1-2 random semantics-preserving shape rewrites (identity()/handoff() inserted on an edge, tee() with \
 a null() branch, union() with an empty source_iter, a unary operator moved across a tee into every branch, statements \
 shuffled). The front-end verdict and the rustc verdict must agree inside a group, and all members must log the same \
